@@ -504,6 +504,11 @@ EXACT_CORPUS = [
      [('Variable "GHOST" with INTENT keyword not found in argument list', 5)]),
 ]
 
+EXACT_CORPUS += [
+    # a separate EXTERNAL statement in another letter case than the type declaration, and one for a dummy named like a module variable
+    ("module em\n implicit none\n integer, save :: h\ncontains\n subroutine s3(foo, bar, h)\n  real foo\n  external FOO\n  external bar\n  real BAR\n  external h\n  call h()\n end subroutine s3\nend module em\n", []),
+]
+
 KNOWN_UNREPORTED = [
     ("C07:missing-type-not-accessible-private",
      "module types_mod\n implicit none\n private\n type :: counter\n  integer :: n\n end type counter\nend module types_mod\n"
